@@ -288,7 +288,7 @@ class null_archive(archive):
     def __setitem__(self, key, value):
         pass
     __setitem__.__doc__ = dict.__setitem__.__doc__
-    def update(self, adict, **kwds):
+    def update(self, adict=(), **kwds):
         pass
     update.__doc__ = dict.update.__doc__
     def setdefault(self, key, *value):
@@ -496,7 +496,7 @@ class dir_archive(archive):
         self.__setitem__(key, res)
         return res
     setdefault.__doc__ = dict.setdefault.__doc__
-    def update(self, adict, **kwds):
+    def update(self, adict=(), **kwds):
         if hasattr(adict,'__asdict__'): adict = adict.__asdict__()
         memo = {}
         memo.update(adict, **kwds) #XXX: could be better ?
@@ -911,7 +911,7 @@ class file_archive(archive):
         self.__setitem__(key, res)
         return res
     setdefault.__doc__ = dict.setdefault.__doc__
-    def update(self, adict, **kwds):
+    def update(self, adict=(), **kwds):
         if hasattr(adict,'__asdict__'): adict = adict.__asdict__()
         memo = self.__asdict__()
         memo.update(adict, **kwds)
@@ -1171,7 +1171,7 @@ if sql:
           self.__setitem__(key, res)
           return res
       setdefault.__doc__ = dict.setdefault.__doc__
-      def update(self, adict, **kwds):
+      def update(self, adict=(), **kwds):
           if hasattr(adict,'__asdict__'): adict = adict.__asdict__()
           memo = {}
           memo.update(adict, **kwds) #XXX: could be better ?
@@ -1528,10 +1528,9 @@ if sql:
               self.__setitem__(key, _value)
           return _value
       setdefault.__doc__ = dict.setdefault.__doc__
-      def update(self, adict, **kwds):
+      def update(self, adict=(), **kwds):
           if hasattr(adict,'__asdict__'): adict = adict.__asdict__()
-          elif hasattr(adict, 'copy'): adict = adict.copy()
-          else: adict = dict(adict)
+          else: adict = dict(adict) # (a dict, or an iterable of items)
           adict.update(**kwds)
           [self.__setitem__(k,v) for (k,v) in adict.items()]
           return #XXX: should do the above all at once, and more efficiently
@@ -1763,10 +1762,9 @@ else:
               self.__setitem__(key, _value)
           return _value
       setdefault.__doc__ = dict.setdefault.__doc__
-      def update(self, adict, **kwds):
+      def update(self, adict=(), **kwds):
           if hasattr(adict,'__asdict__'): adict = adict.__asdict__()
-          elif hasattr(adict, 'copy'): adict = adict.copy()
-          else: adict = dict(adict)
+          else: adict = dict(adict) # (a dict, or an iterable of items)
           adict.update(**kwds)
           [self.__setitem__(k,v) for (k,v) in adict.items()]
           return
@@ -2056,7 +2054,7 @@ if hdf:
           self.__setitem__(key, res)
           return res
       setdefault.__doc__ = dict.setdefault.__doc__
-      def update(self, adict, **kwds):
+      def update(self, adict=(), **kwds):
           if hasattr(adict,'__asdict__'): adict = adict.__asdict__()
           memo = {}
           memo.update(adict, **kwds)
@@ -2234,7 +2232,7 @@ if hdf:
           self.__setitem__(key, res)
           return res
       setdefault.__doc__ = dict.setdefault.__doc__
-      def update(self, adict, **kwds):
+      def update(self, adict=(), **kwds):
           if hasattr(adict,'__asdict__'): adict = adict.__asdict__()
           memo = {}
           memo.update(adict, **kwds) #XXX: could be better ?
